@@ -3,6 +3,7 @@ C04 — No lost wake-up: a servable waiting reservation is granted at once.
 -/
 import FsVerif.Proofs.PosExtra
 import FsVerif.Proofs.BufExtra
+import FsVerif.Proofs.Fleet
 namespace FsVerif.Props.C04
 open FsVerif PosStore
 
@@ -32,10 +33,8 @@ theorem filter_get_side_counterexample :
        .cancelGet 2, .settle]) = true := by
   decide
 
-/-- Partial result for the filter store: when every retrieval request uses a filter that accepts
-    every item, the filter store behaves like the plain ones (stated for the `always` filter). -/
-theorem filter_get_side_partial_note : True := trivial
-
+/- No partial positive result is proved for the retrieval side of the filter store (the put side above covers it:
+   `pos_put_side` holds for all three classes). -/
 
 /-! ### BufferStore: both sides, at every reachable state (timer expiries included) -/
 
@@ -46,5 +45,25 @@ theorem buf_get_side {s : BufStore} (h : BufStore.ReachD s) (hq : s.getQ ≠ [])
   have hi := BufStore.reachD_binv h
   have := hi.wakeGet hq
   have := hi.bindLe; have := hi.bindEv.length_eq; omega
+
+/-! ### FleetStore (the store inside a Fleet edge): both sides, at every reachable state — every API call and every kernel
+event of the fleet's processes (activation loop, transit timers, arrivals) included -/
+
+theorem fleet_put_side {s : FleetStore} (h : FleetStore.ReachD s) (hq : s.b.putQ ≠ []) : s.b.admits = false :=
+  (FleetStore.reachD_kt h).core.wakePut hq
+
+theorem fleet_get_side {s : FleetStore} (h : FleetStore.ReachD s) (hq : s.b.getQ ≠ []) : s.b.ready.length = s.b.getRes.length := by
+  have hi := (FleetStore.reachD_kt h).core
+  have := hi.wakeGet hq
+  have := hi.bindLe; have := hi.bindEv.length_eq; omega
+
+/-! ### non-vacuity: reachable states in which a request IS waiting (the premises are satisfiable): a full positional store
+with a second space request queued, and a BufferStore whose only item is still in its delay while a retrieval waits -/
+
+example : ∃ s : PosStore, Reachable s ∧ s.putQ ≠ [] ∧ s.admits = false :=
+  ⟨run (init { cap := some 1 }) [.reservePut 0 0, .reservePut 1 0], ⟨_, _, rfl⟩, by decide⟩
+
+example : ∃ s : PosStore, Reachable s ∧ s.cfg.filter = false ∧ s.getQ ≠ [] :=
+  ⟨run (init { cap := some 2 }) [.reservePut 0 0, .put 0 0 ⟨7, 0⟩, .reserveGet 1 0 .always, .reserveGet 2 0 .always], ⟨_, _, rfl⟩, by decide⟩
 
 end FsVerif.Props.C04
